@@ -12,6 +12,11 @@ import (
 // direction of the translation, e.g., the same steps are applied to
 // mask the data as to unmask the data.
 func Cipher(payload []byte, mask [4]byte, offset int) {
+	// Only the position inside the mask matters. Reducing the offset first
+	// keeps offset+i below from overflowing for offsets close to the int
+	// limit.
+	offset %= 4
+
 	n := len(payload)
 	if n < 8 {
 		for i := 0; i < n; i++ {
